@@ -5,6 +5,7 @@ import (
 	"encoding/hex"
 	"io"
 	"lunar/engine/utils/environment"
+	"lunar/engine/verifhook"
 	"os"
 	"path/filepath"
 )
@@ -82,6 +83,7 @@ func (fs *FileSystemOperation) Backup() error {
 }
 
 func (fs *FileSystemOperation) Restore() error {
+	verifhook.Event("fs.restore")
 	fileSystemSnapshot, err := fs.createFileSystemBackUp()
 	if err != nil {
 		return err
@@ -157,6 +159,9 @@ func (fs *FileSystemOperation) SaveMetricsConfig(content []byte) error {
 }
 
 func (fs *FileSystemOperation) cleanUpFile(filePath string) error {
+	if err := verifhook.Fault("fs.remove", filePath); err != nil {
+		return err
+	}
 	if err := os.Remove(filePath); err != nil && !os.IsNotExist(err) {
 		return err
 	}
@@ -177,6 +182,9 @@ func (fs *FileSystemOperation) cleanUpDirectory(cleanupPath string) error {
 }
 
 func (fs *FileSystemOperation) storeFileOnDisk(filePath string, content []byte) error {
+	if err := verifhook.Fault("fs.store", filePath); err != nil {
+		return err
+	}
 	_ = fs.cleanUpFile(filePath)
 
 	dir := filepath.Dir(filePath)
